@@ -1,10 +1,12 @@
 import GsModel.Params.Bind
+import GsModel.Text.Init
 /-
   C03 — Generated server binds and validates requests per the spec.
 
   `bindGen` transcribes the generated binder (presence test, last value wins, empty-value rule, SplitByFormat, item loop,
   array validations); `bindRef` is written from the Swagger 2.0 parameter rules.  Proved for ALL parameter specs of the
-  fragment and ALL raw values:
+  fragment and ALL raw values (and, for defaults, `default_literal_structure`: the Go literal written for a default value has
+  exactly the structure of the value, whatever its strings contain — the repaired `goSliceInitializer`):
   * `scalar_agrees`     — for string / integer scalars the generated binder IS the reference; `bool_agrees_on_lexicon`.
   * `array_agrees`      — for arrays it is the reference on every request whose items are non-empty and carry no surrounding
                           blanks (`cleanItems`) …
@@ -256,5 +258,20 @@ theorem bool_garbage_accepted :
 /-- non-vacuity of `array_agrees`: a clean pipes value -/
 example : cleanItems "pipes" "1|2|3".toList = true ∧
     bindGen { isArray := true, cf := "pipes", ty := .int 64, maxItems := some 3 } (some ["1|2|3".toList]) = .many [.i 1, .i 2, .i 3] := by decide
+
+/-! ### defaults: the Go literal written for a default value -/
+
+/-- the structure (braces, commas, colons outside string literals) of the literal `goSliceInitializer` writes for a default is
+    the structure of the VALUE, whatever its strings contain; with `unquote_quote` each string literal evaluates to its string -/
+theorem default_literal_structure (v : Gs.Text.Init.V) (h : Gs.Text.Init.numsOk v = true) :
+    Gs.Text.Init.skel 0 (Gs.Text.Init.render v) = Gs.Text.Init.shape v := by
+  have := Gs.Text.Init.skel_render v [] h
+  simpa [Gs.Text.Init.skel] using this
+
+/-- the pinned rule (string replacement on the JSON text) rewrote the strings themselves -/
+theorem default_old_rule_rewrites_strings :
+    Gs.Text.Init.oldInit "[\"a[1]\",\"b}c\"]".toList = "{\"a{1,}\",\"b,}c\",}".toList ∧
+    Gs.Text.Init.render (.arr [.str "a[1]".toList, .str "b}c".toList]) = "{\"a[1]\",\"b}c\",}".toList :=
+  Gs.Text.Init.old_rule_rewrites_strings
 
 end Gs.Props.C03
